@@ -29,6 +29,10 @@ def cases(tier, seed):
         for kind, n, (lb, db) in itertools.product(["gauss", "fixed", "fixed+learn"], [1, 2, 5], BPAIRS):
             for call_noise in ([False] if kind == "gauss" else [False, True, "tiny"]):
                 yield {"kind": kind, "n": n, "lbatch": lb, "dbatch": db, "call_noise": call_noise, "seed": rnd.randrange(10**6)}
+        # a function distribution whose size differs from the stored fixed noise and no call-time noise: documented as a
+        # no-op for the fixed part (warning); a learned additional noise is still added
+        for kind, n, m_ in itertools.product(["fixed", "fixed+learn"], [3, 5], [2, 7]):
+            yield {"kind": "size_mismatch", "lkind": kind, "n": n, "m": m_, "seed": rnd.randrange(10**6)}
         for t, n, inter in itertools.product([2, 3], [1, 4], [True, False]):
             for rank in range(0, t + 1):
                 for glob, task in ((True, True), (True, False), (False, True)):
@@ -120,6 +124,8 @@ def run_case(case, ctx):
     from vf import util
 
     g = util.gen(case["seed"])
+    if case["kind"] == "size_mismatch":
+        return _size_mismatch(case, ctx, g)
     if case["kind"] == "mt":
         return _mt(case, ctx, g)
     if case["kind"] == "list":
@@ -185,6 +191,29 @@ def _single(case, ctx, g):
     ctx.close("forward_loc", cond.loc, f.expand(cond.loc.shape), "bit", cls=cls)
     # noise is added once: applying to an already-noisy distribution adds R again, not more
     ctx.cell({k: v_ for k, v_ in case.items() if k != "seed"}, nontrivial=n > 1)
+
+
+def _size_mismatch(case, ctx, g):
+    import warnings
+
+    import torch
+
+    from gpytorch.distributions import MultivariateNormal as MVN
+    from vf import util
+
+    lik, fixed = _make_lik(case["lkind"], g, [], case["n"])
+    m_ = case["m"]
+    mean, C = util.randn(g, m_), _spd(g, m_)
+    with warnings.catch_warnings():
+        warnings.simplefilter("ignore")
+        out = lik(MVN(mean, C))
+    add = out.covariance_matrix - C
+    ref = torch.zeros(m_, m_)
+    if case["lkind"] == "fixed+learn":
+        ref = ref + lik.second_noise.detach().reshape(()) * torch.eye(m_)
+    ctx.close("marginal_adds_R", add, ref, "direct", cls=case["lkind"] + ":size_mismatch")
+    ctx.close("marginal_keeps_mean", out.mean, mean, "bit")
+    ctx.cell({k: v for k, v in case.items() if k != "seed"}, nontrivial=case["lkind"] == "fixed+learn")
 
 
 def _mt(case, ctx, g):
